@@ -3,9 +3,14 @@
 package method_evaluator
 
 import (
+	"bufio"
 	"fmt"
+	"strings"
 	"ti/base"
 	"ti/context"
+	"ti/lexer"
+	"ti/lexer/reader"
+	"ti/parser"
 )
 
 var verifSeq int
@@ -29,11 +34,14 @@ type VerifCheckArgsSpec struct {
 	Args     [][]*base.VerifT        `json:"calls"` // one argument list per call, checked in order
 	Round    string                  `json:"round"`
 	IsStatic bool                    `json:"static"`
+	// Round tags of the parameter types (T.Round is not part of the projection)
+	ParamRounds map[string]string `json:"param_rounds"`
 }
 
 type VerifCheckArgsResult struct {
 	Errors []string                  `json:"errors"` // "" = nil error, one per call
 	Params []map[string]*base.VerifT `json:"params"` // parameter table after each call
+	Rounds []map[string]string       `json:"rounds"` // Round tag of every parameter after each call
 }
 
 // VerifCheckArgs registers a method with the given parameter table in TFrame under a fresh class,
@@ -43,7 +51,9 @@ func VerifCheckArgs(s *VerifCheckArgsSpec) *VerifCheckArgsResult {
 	class := fmt.Sprintf("VerifCls%d", verifSeq)
 	names := []string{}
 	for name, v := range s.Params {
-		base.SetValueT(s.Frame, class, "m", name, base.VerifFromProjection(v), s.IsStatic)
+		paramT := base.VerifFromProjection(v)
+		paramT.Round = s.ParamRounds[name]
+		base.SetValueT(s.Frame, class, "m", name, paramT, s.IsStatic)
 		names = append(names, name)
 	}
 	methodT := base.MakeMethod(s.Frame, "m", *base.VerifFromProjection(s.Ret), append([]string{}, s.DArgs...))
@@ -74,6 +84,13 @@ func VerifCheckArgs(s *VerifCheckArgsSpec) *VerifCheckArgsResult {
 			}
 		}
 		res.Params = append(res.Params, after)
+		rounds := map[string]string{}
+		for name := range after {
+			if t := base.GetValueT(s.Frame, class, "m", name, s.IsStatic); t != nil {
+				rounds[name] = t.Round
+			}
+		}
+		res.Rounds = append(res.Rounds, rounds)
 	}
 	base.VerifDeleteClass(class)
 	return res
@@ -85,3 +102,32 @@ func VerifPrioritizeDefineArgNames(names []string) []string {
 }
 
 func VerifPrioritizeArgTs(ts []*base.T) []*base.T { return prioritizeArgTs(ts) }
+
+// VerifExecTypeSpec describes one call of calculateExecutionType: the receiver, the declared
+// return type, the evaluated arguments and the block value the parser holds (nil = none).
+type VerifExecTypeSpec struct {
+	Recv  *base.VerifT   `json:"recv"`
+	Ret   *base.VerifT   `json:"ret"`
+	Args  []*base.VerifT `json:"args"`
+	Block *base.VerifT   `json:"block"`
+}
+
+type VerifExecTypeResult struct {
+	T    *base.VerifT `json:"t"`
+	Recv *base.VerifT `json:"recv"` // the receiver afterwards
+}
+
+func VerifCalculateExecutionType(s *VerifExecTypeSpec) *VerifExecTypeResult {
+	p := parser.New(lexer.New(reader.New(*bufio.NewReader(strings.NewReader("")))), "verif.rb")
+	recvT := base.VerifFromProjection(s.Recv)
+	if s.Block != nil {
+		p.SetLastEvaluatedT(base.VerifFromProjection(s.Block))
+	}
+	m := &MethodEvaluator{parser: &p, ctx: context.NewContext("", "", "check"), method: "m", evaluatedObjectT: recvT, objectT: recvT}
+	var argTs []*base.T
+	for _, a := range s.Args {
+		argTs = append(argTs, base.VerifFromProjection(a))
+	}
+	t := calculateExecutionType(m, base.VerifFromProjection(s.Ret), argTs)
+	return &VerifExecTypeResult{T: t.VerifProject(), Recv: recvT.VerifProject()}
+}
